@@ -239,12 +239,27 @@ func lastKinds(s sel.Sel) string {
 	return s[len(s)-2].Kind + "+" + s[len(s)-1].Kind
 }
 
+var stringZoo = []string{
+	"the quick brown fox jumps over the lazy dög",
+	"0123456789012345678901234567890123456789éé",
+	"ééééééééééééééééééééééééééééééééé tail",
+	"abcdefghijklmnopqrstuvwxyz0123456",
+	"日本語 mixed ascii 🙂 and more than thirty-two bytes of text é",
+}
+
 var keyAlphabet = []string{"a", "b", "c", "aa", "x", "foo", "é", "", "with space", "A", "key-1", "d.e"}
 
 func draw(t *rapid.T) Case {
 	data := val.Gen(t, val.Cfg{Depth: 4, MaxLen: 4, Keys: keyAlphabet})
 	if rapid.IntRange(0, 4).Draw(t, "forcecoll") > 0 && data.K != "map" && data.K != "list" {
 		data = val.GenMap(t, val.Cfg{Depth: 3, MaxLen: 4, Keys: keyAlphabet}, 3)
+	}
+	if rapid.IntRange(0, 9).Draw(t, "zoo") == 0 {
+		// strings beyond small-buffer sizes, sliced once or twice
+		data = val.Str(rapid.SampledFrom(stringZoo).Draw(t, "zoostr"))
+		if rapid.Bool().Draw(t, "zoowrap") {
+			data = val.Map(val.E("s", data))
+		}
 	}
 	s := sel.GenFor(t, data, sel.GenCfg{MaxSegs: 6})
 	return Case{Sel: s, Data: data}
@@ -299,6 +314,24 @@ func TestSliceExhaustive(t *testing.T) {
 						n++
 					}
 				}
+			}
+		}
+	}
+	// long strings (beyond small-buffer sizes) with ASCII / multi-byte content in every arrangement
+	for _, str := range stringZoo {
+		r := int64(len([]rune(str)))
+		var bs []*int64
+		bs = append(bs, nil)
+		for i := -r - 2; i <= r+2; i++ {
+			bs = append(bs, ip(i))
+		}
+		for _, a := range bs {
+			for _, b := range bs {
+				if a == nil && b == nil {
+					continue
+				}
+				prop.One(t, Case{Sel: sel.Sel{{Kind: "slice", From: a, To: b}}, Data: val.Str(str)})
+				n++
 			}
 		}
 	}
